@@ -11,7 +11,7 @@ m = {
     "setup_cmd": "./setup.sh",
     "hooks": {
         "guard": "verif",
-        "enable": "go build -tags verif -overlay .build/overlay.json (the overlay adds harness/overlay/zz_verif_hook.go and zz_verif_sentinel_{present,absent}.go to package rscp and harness/overlay/zz_verif_main.go to cmd/e3dc at build time; nothing is committed to /repo for hooks)",
+        "enable": "go build -tags verif -overlay .build/overlay.json (the overlay adds harness/overlay/zz_verif_hook.go and zz_verif_sentinel_{present,absent}.go, zz_verif_state_{present,absent}.go to package rscp and harness/overlay/zz_verif_main.go to cmd/e3dc at build time; nothing is committed to /repo for hooks)",
         "baseline_off_cmd": "cd /repo && go test -vet=off -count=1 ./...",
         "source_commits": [],
         "add_only": True,
